@@ -347,8 +347,10 @@ class Projector:
                                 self.notes.append(f"change entry for line {ln} of {rel} carries {got}, reported for that site: {want}")
             _ = cs
         obs = {"parsesOk": True, "namesOk": True, "bagOk": True}
-        if self.observe and css and new >= 0 and rel.endswith(".py"):
-            obs = self._observe(rel, pre_text, self.texts.get(new), css)
+        if self.observe and css and rel.endswith(".py") and (new >= 0 or post != pre):
+            # what is judged is the content left on disk; under --dry-run (nothing written) the content the diff leads to
+            seen = self.texts.get(post) if post != pre and post >= 0 else self.texts.get(new)
+            obs = self._observe(rel, pre_text, seen, css)
         return {
             "ev": "FileEnd", "f": self.tok(rel), "o": outcome, "new": new, "post": post,
             "nchanges": nchanges, "nchangesets": len(css), "linesOk": lines_ok, "descOk": desc_ok, "pathOk": path_ok,
